@@ -73,6 +73,7 @@ DEFAULT_CFG = {
     "c_drop_first": 0,        # scripted fault: the first N client datagrams are lost
     "blackout_from": None,    # scripted fault: every datagram sent at/after this time (s after start) is lost
     "blackout_until": None,   # ... and before this time (None = forever)
+    "suite": None,            # restrict both endpoints to one cipher suite: aes128 / aes256 / chacha20
     "c_cid_limit": None,      # active_connection_id_limit advertised by the client / the server (default 8)
     "s_cid_limit": None,
     "rebind_at": None,        # seconds after start: the client's source address changes (scripted NAT rebinding)
@@ -110,13 +111,20 @@ def make_configs(cfg):
     if cfg.get("vn"):
         # the server only speaks the *other* version, forcing incompatible negotiation
         s.supported_versions = [V2 if cfg["version"] == V1 else V1]
+    if cfg.get("suite"):
+        from aioquic.tls import CipherSuite
+
+        cs = {"aes128": CipherSuite.AES_128_GCM_SHA256, "aes256": CipherSuite.AES_256_GCM_SHA384,
+              "chacha20": CipherSuite.CHACHA20_POLY1305_SHA256}[cfg["suite"]]
+        c.cipher_suites = [cs]
+        s.cipher_suites = [cs]
     return c, s
 
 
 # ------------------------------------------------------------------- observer
 class PacketRec:
     __slots__ = ("sender", "dgram", "type", "epoch", "pn", "frames", "size", "ack_eliciting",
-                 "in_flight", "dcid", "scid", "opened", "time", "dst", "version", "note", "token")
+                 "in_flight", "dcid", "scid", "opened", "time", "dst", "version", "note", "token", "key_phase")
 
     def brief(self):
         return (self.sender, self.type, self.pn,
@@ -152,13 +160,21 @@ class Observer:
             "0rtt": "CLIENT_EARLY_TRAFFIC_SECRET",
             "1rtt": role + "_TRAFFIC_SECRET_0",
         }[ptype]
+        out = []
         k = self.keys.get((sender, ptype))
         if k is not None:
-            return [k]
+            out.append(k)
         sec = self._secret(sender, label)
-        if sec is None:
-            return []
-        return [refquic.Keys(s, sec, version) for s in refquic.suites_for_secret(sec)]
+        if sec is not None and (k is None or k.secret != sec or ptype != "1rtt"):
+            # fresh candidates from the key log: after a Retry / Version Negotiation restart the handshake
+            # starts over with new secrets, and a short header does not say which version's labels apply
+            # (the sender may have switched version before the peer has)
+            for ver in [version] + [v for v in (V1, V2) if v != version]:
+                for su in refquic.suites_for_secret(sec):
+                    if k is not None and (k.suite, k.secret, getattr(k, "version", None)) == (su, sec, ver):
+                        continue
+                    out.append(refquic.Keys(su, sec, ver))
+        return out
 
     def observe(self, sender, data, dst, now):
         recs = []
@@ -169,6 +185,7 @@ class Observer:
             r.size = p.end - p.start
             r.time, r.dst, r.dgram = now, dst, len(data)
             r.frames, r.pn, r.opened, r.note = None, None, False, None
+            r.key_phase = None
             r.token = p.token
             r.epoch = EPOCH_OF.get(p.type)
             r.ack_eliciting = r.in_flight = False
@@ -227,6 +244,7 @@ class Observer:
                 continue
             header, pn, pn_len, pt, _ = res
             r.pn, r.opened = pn, True
+            r.key_phase = (header[0] >> 2) & 1 if p.type == "1rtt" else None
             if pn > self.largest.get(space, -1):
                 self.largest[space] = pn
             try:
@@ -416,15 +434,14 @@ class NetSim:
         conn = ep.conn
         for m in self.monitors:
             m.before_send(self, ep)
-        if (ep.name == "c" and self.cfg.get("rebind_at") is not None and self.client_addr == C_ADDR
-                and self.now - self.t0 >= self.cfg["rebind_at"]):
-            # scripted NAT rebinding: from now on the client's datagrams carry another source address
-            self.client_addr = C_ADDR2
-            for d0 in self.inflight:
-                if d0.src == "c":
-                    d0.src_addr = C_ADDR2
-            self.log("scripted_rebind", (C_ADDR2,))
         out = conn.datagrams_to_send(now=self.now)
+        if (out and ep.name == "c" and self.cfg.get("rebind_at") is not None and self.client_addr == C_ADDR
+                and self.now - self.t0 >= self.cfg["rebind_at"]):
+            # scripted NAT rebinding: the first datagram the client sends after that instant (and everything
+            # later) carries another source address - a mapping only changes when the client transmits, and
+            # the server learns the new address from that datagram
+            self.client_addr = C_ADDR2
+            self.log("scripted_rebind", (C_ADDR2,))
         recs_all = []
         for data, addr in out:
             d = Dgram()
@@ -506,7 +523,7 @@ class NetSim:
         if g[0] == "rxfin":
             return ep.rx_fin.get(g[1], 0) > 0
         if g[0] == "t":   # ("t", seconds after start)  plus handshake
-            return ep.hs_done and self.now - self.t0 >= g[1]
+            return ep.hs_done and self.now - self.t0 >= g[1] - 1e-9
         if g[0] == "acked":  # ping uid acknowledged
             return g[1] in ep.pings_acked
         raise core.HarnessError("bad guard %r" % (g,))
@@ -663,7 +680,18 @@ class NetSim:
             # the deadline did not move and is still due: a real loop would spin;
             # model it by letting time advance a little (doubling), and count it.
             self.stutters += 1
-            self.now += 1e-6 * (2 ** min(self.stutters, 20))
+            step = 1e-6 * (2 ** min(self.stutters, 20))
+            # ... but never past the next thing that is due anyway (an arrival, the other endpoint's timer):
+            # the spinning endpoint must not make the harness late for anybody else
+            nxt = [d.arrival for d in self.inflight if d.arrival > self.now]
+            for other in self.ep.values():
+                if other is not ep and other.conn is not None and other.terminated is None:
+                    t = other.conn.get_timer()
+                    if t is not None and t > self.now:
+                        nxt.append(t)
+            if nxt:
+                step = min(step, max(min(nxt) - self.now, 1e-6))
+            self.now += step
 
     # --------------------------------------------------------------- main loop
     def _timers(self):
@@ -717,7 +745,7 @@ class NetSim:
             for e in self.ep.values():
                 if e.conn is not None and e.terminated is None and e.hs_done and e.op_i < len(e.ops):
                     g = e.ops[e.op_i].get("g", "hs")
-                    if isinstance(g, tuple) and g[0] == "t" and self.t0 + g[1] > self.now:
+                    if isinstance(g, (tuple, list)) and g[0] == "t" and self.now - self.t0 < g[1] - 1e-9:
                         wake = self.t0 + g[1] if wake is None else min(wake, self.t0 + g[1])
             if wake is not None and (first is None or wake < first.arrival) and (not timers or wake < timers[0][0]):
                 self.now = wake
